@@ -171,7 +171,11 @@ harness(void)
 		int whole = (visible_finished(F_JSON, F_OBS) && obs_complete(F_OBS)) || (visible_finished(T_JSON, T_OBS) && obs_complete(T_OBS));
 		/* known finding C10-reloc-split: nothing is lost but the stream ends up split between the
 		 * temporary and the final directory after a reported relocation error */
-		int split = !whole && gfs_fault_done && g_nerr > 0
+		/* whatever happened, the trace directory never shows a finished stream whose stream.obs lacks
+		 * flushed bytes (that would be a silently accepted loss, not the known split) */
+		int lossy_visible = visible_finished(F_JSON, F_OBS) && !obs_complete(F_OBS);
+		V_ASSERT(!lossy_visible, "C10: after an I/O fault the trace directory never holds a finished stream with flushed events missing");
+		int split = !whole && !lossy_visible && gfs_fault_done && g_nerr > 0
 			&& (obs_complete(F_OBS) || obs_complete(T_OBS))
 			&& (visible_finished(F_JSON, F_OBS) || visible_finished(T_JSON, T_OBS));
 #ifdef KF_RELOC_SPLIT
